@@ -57,7 +57,7 @@ def viz_case(draw, max_tasks=7):
     c['plain_names'] = draw(st.integers(0, 5)) == 0
     if c['plain_names']:
         for t in c['spec']['tasks']:
-            t['name'] = 'Task %d' % t['id']
+            t['name'] = 'Task %s' % t['id']
     return c
 
 
